@@ -1,10 +1,197 @@
 (** C11 — oracle votes are commit-reveal bound, period-exact and feeder-authorised.
-    This file holds only the exported statements. *)
+    This file holds only the exported statements (proofs: Proofs.v; non-vacuity: Examples.v).
+
+    [step H n s h m] is the model of one oracle message / event handled at block height [h] in
+    state [s] (x/oracle/keeper/msg_server.go, keeper.go ValidateFeeder, ballot.go
+    clearVotesAndPrevotes); [H salt rates v] stands for hex(SHA256(salt ":" rates ":" valoper v)[:20]);
+    [run] / [final] / [consumed] run a whole history. *)
 From Coq Require Import List Bool Arith ZArith.
 Import ListNotations.
 Require Import Nib.C11.Model Nib.C11.Spec Nib.C11.Proofs.
 
-(** The boolean checker evaluated on implementation traces is sound for [P]. *)
+(** A vote is accepted IF AND ONLY IF its signer is the validator's own account or the account
+    the validator currently delegates to, the validator is bonded, a prevote of that validator is
+    stored whose submit block lies exactly one vote period (integer division by the current
+    VotePeriod) before the current height, the rate string parses, all its pairs are whitelisted,
+    and the stored hash equals the hash of (revealed salt, exact rate string, validator).
+    [ranges s]: VotePeriod > 0 and stored submit blocks fit int64 — an invariant of all reachable
+    states (C11_ranges_invariant). *)
+Theorem C11_vote_accepted_iff :
+  forall H n s h f v salt rates tuples parses wl,
+  ranges s -> (0 <= h < two63)%Z ->
+  (accepted (fst (step H n s h (Vote f v salt rates tuples parses wl))) = true <->
+   (f = v \/ feeders s v = Some f) /\ status s v = Bonded /\
+   (exists p, prevotes s v = Some p /\ (h / vp s - p_submit p / vp s = 1)%Z /\
+              p_hash p = H salt rates v) /\
+   parses = true /\ wl = true).
+Proof. exact vote_accepted_iff_arith. Qed.
+Print Assumptions C11_vote_accepted_iff.
+
+(** the same with the code's uint64 arithmetic ([period_ok]), without any range assumption *)
+Theorem C11_vote_accepted_iff_machine :
+  forall H n s h f v salt rates tuples parses wl,
+  accepted (fst (step H n s h (Vote f v salt rates tuples parses wl))) = true <->
+  feeder_ok s f v = true /\ status s v = Bonded /\
+  (exists p, prevotes s v = Some p /\ period_ok (vp s) h (p_submit p) = true /\
+             p_hash p = H salt rates v) /\
+  parses = true /\ wl = true.
+Proof. exact vote_accepted_iff. Qed.
+Print Assumptions C11_vote_accepted_iff_machine.
+
+(** [period_ok] is the plain statement "h / vp − submit / vp = 1", i.e. "h lies in the vote period
+    after the prevote's" *)
+Theorem C11_period_exact :
+  forall vp h sb, (0 < vp)%Z -> (0 <= h < two63)%Z -> (0 <= sb < two63)%Z ->
+  (period_ok vp h sb = true <-> (h / vp - sb / vp = 1)%Z) /\
+  (period_ok vp h sb = true <-> ((sb / vp + 1) * vp <= h < (sb / vp + 2) * vp)%Z).
+Proof. exact period_exact. Qed.
+Print Assumptions C11_period_exact.
+
+Theorem C11_prevote_accepted_iff :
+  forall H n s h f v hash hex_ok,
+  accepted (fst (step H n s h (Prevote f v hash hex_ok))) = true <->
+  feeder_ok s f v = true /\ status s v = Bonded /\ hex_ok = true.
+Proof. exact prevote_accepted_iff. Qed.
+Print Assumptions C11_prevote_accepted_iff.
+
+(** The accepted vote consumes the prevote: afterwards the validator has no prevote, its vote is
+    the parsed tuples, and nobody else's entries, the delegations, staking status and VotePeriod
+    are touched. *)
+Theorem C11_prevote_consumed :
+  forall H n s h f v salt rates tuples parses wl,
+  accepted (fst (step H n s h (Vote f v salt rates tuples parses wl))) = true ->
+  forall s', s' = snd (step H n s h (Vote f v salt rates tuples parses wl)) ->
+  prevotes s' v = None /\ votes s' v = Some tuples /\
+  (forall x, x <> v -> prevotes s' x = prevotes s x /\ votes s' x = votes s x) /\
+  feeders s' = feeders s /\ status s' = status s /\ vp s' = vp s.
+Proof. exact vote_effect. Qed.
+Print Assumptions C11_prevote_consumed.
+
+(** A refused message (any kind) changes nothing. *)
+Theorem C11_rejected_changes_nothing :
+  forall H n s h m, accepted (fst (step H n s h m)) = false -> snd (step H n s h m) = s.
+Proof. exact rejected_no_change. Qed.
+Print Assumptions C11_rejected_changes_nothing.
+
+(** No reuse, over arbitrary histories (any messages, heights, VotePeriod edits, staking changes):
+    [consumed] lists, for every accepted vote, (its position, the position of the Prevote message
+    whose entry it consumed).  No Prevote message backs two accepted votes. *)
+Theorem C11_no_reuse :
+  forall H s0 all, (forall v, prevotes s0 v = None) -> NoDup (map snd (consumed H 0 s0 all)).
+Proof. exact no_reuse. Qed.
+Print Assumptions C11_no_reuse.
+
+(** Every accepted vote of a history is in that list … *)
+Theorem C11_every_accepted_vote_consumes :
+  forall H evs n s k h f v salt rates tuples parses wl,
+  nth_error evs k = Some (h, Vote f v salt rates tuples parses wl) ->
+  accepted (fst (step H (n + k) (final H n s (firstn k evs)) h (Vote f v salt rates tuples parses wl))) = true ->
+  exists o, In (n + k, o) (consumed H n s evs).
+Proof. exact accepted_vote_logged. Qed.
+Print Assumptions C11_every_accepted_vote_consumes.
+
+(** … and is backed by an EARLIER Prevote message for the SAME validator carrying exactly the
+    hash of the revealed (salt, rate string, validator), submitted at a height one vote period
+    (VotePeriod current at the vote) before the vote's height. *)
+Theorem C11_vote_backed_by_prevote :
+  forall H s0 all j o, (forall v, prevotes s0 v = None) ->
+  In (j, o) (consumed H 0 s0 all) ->
+  exists hj f v salt rates tuples hk f' hex_ok,
+    nth_error all j = Some (hj, Vote f v salt rates tuples true true) /\
+    nth_error all o = Some (hk, Prevote f' v (H salt rates v) hex_ok) /\
+    o < j /\
+    period_ok (vp (state_before H s0 all j)) hj (to_u64 hk) = true.
+Proof. exact vote_backed_by_prevote. Qed.
+Print Assumptions C11_vote_backed_by_prevote.
+
+(** Binding (hypothesis: the hash separates triples — collision freeness of SHA-256 on these
+    strings): if the backing Prevote message committed to H(salt', rates', w), then the accepted
+    vote revealed exactly salt' and the textually identical rates', and w is the voting validator.
+    A commitment copied from another validator, or made for a different spelling of the same
+    rates, never backs a vote. *)
+Theorem C11_commit_reveal_binding :
+  forall H s0 all j o, H_injective_fn H -> (forall v, prevotes s0 v = None) ->
+  In (j, o) (consumed H 0 s0 all) ->
+  forall hk f' v' salt' rates' w hex_ok,
+    nth_error all o = Some (hk, Prevote f' v' (H salt' rates' w) hex_ok) ->
+    w = v' /\ exists hj f tuples, nth_error all j = Some (hj, Vote f v' salt' rates' tuples true true).
+Proof. exact commit_reveal_binding. Qed.
+Print Assumptions C11_commit_reveal_binding.
+
+(** Feeder exclusivity: the signer of an accepted prevote / vote is the validator itself or its
+    current delegate, and the validator is bonded. *)
+Theorem C11_feeder_exclusive :
+  forall H n s h m f v, signer_of m = Some (f, v) -> accepted (fst (step H n s h m)) = true ->
+  (f = v \/ feeders s v = Some f) /\ status s v = Bonded.
+Proof. exact accepted_signer_authorised. Qed.
+Print Assumptions C11_feeder_exclusive.
+
+(** An accepted MsgDelegateFeedConsent makes [d] THE delegate … *)
+Theorem C11_delegate_sets :
+  forall H n s h v d, accepted (fst (step H n s h (Delegate v d))) = true ->
+  feeders (snd (step H n s h (Delegate v d))) v = Some d.
+Proof. exact delegate_sets. Qed.
+Print Assumptions C11_delegate_sets.
+
+(** … and from then on, over any history without a further delegation by [v], every prevote /
+    vote for [v] signed by anyone other than [v] or [d'] — in particular by a former delegate —
+    is refused, starting with the very next message. *)
+Theorem C11_former_delegate_refused :
+  forall H evs n s v d', feeders s v = Some d' ->
+  (forall h d, ~ In (h, Delegate v d) evs) ->
+  Forall2 (fun e r => forall f, signer_of (snd e) = Some (f, v) -> f <> v -> f <> d' ->
+                                accepted (fst r) = false) evs (run H n s evs).
+Proof. exact only_current_delegate. Qed.
+Print Assumptions C11_former_delegate_refused.
+
+(** Period end: the delegations, staking status and VotePeriod stay; at a period-last block all
+    votes are dropped and a prevote survives iff it is not stale (the code's test
+    height >= int64(SubmitBlock + VotePeriod)); at any other block nothing changes. *)
+Theorem C11_stale_prevotes_dropped :
+  forall H n s h,
+  let s' := snd (step H n s h EndBlock) in
+  feeders s' = feeders s /\ status s' = status s /\ vp s' = vp s /\
+  if is_period_last (vp s) h
+  then (forall v, votes s' v = None) /\
+       (forall v p, prevotes s' v = Some p <->
+                    prevotes s v = Some p /\ stale (vp s) h (p_submit p) = false)
+  else s' = s.
+Proof. exact endblock_effect. Qed.
+Print Assumptions C11_stale_prevotes_dropped.
+
+(** The clearing rule agrees with the reveal window: a prevote survives the end of its own
+    period and is dropped at the end of the next one (the only period in which it can be
+    revealed). *)
+Theorem C11_prevote_lifetime :
+  forall H n s v p, ranges s -> (p_submit p + 2 * vp s < two63)%Z -> prevotes s v = Some p ->
+  prevotes (snd (step H n s ((p_submit p / vp s + 1) * vp s - 1)%Z EndBlock)) v = Some p /\
+  prevotes (snd (step H n s ((p_submit p / vp s + 2) * vp s - 1)%Z EndBlock)) v = None.
+Proof. exact prevote_lifetime. Qed.
+Print Assumptions C11_prevote_lifetime.
+
+(** [ranges] is an invariant: every state reachable through events at int64 heights and with
+    uint64 VotePeriod edits has VotePeriod > 0 and submit blocks that fit int64. *)
+Theorem C11_ranges_invariant :
+  forall H evs n s, Forall ev_ok evs -> ranges s -> ranges (final H n s evs).
+Proof. exact ranges_final. Qed.
+Print Assumptions C11_ranges_invariant.
+
+(** The ghost field [p_origin] used to state C11_no_reuse influences no outcome and no store. *)
+Theorem C11_ghost_irrelevant :
+  forall H n1 n2 a b h m, same_view a b ->
+  fst (step H n1 a h m) = fst (step H n2 b h m) /\
+  same_view (snd (step H n1 a h m)) (snd (step H n2 b h m)).
+Proof. exact step_ghost_irrelevant. Qed.
+Print Assumptions C11_ghost_irrelevant.
+
+(** Every trace of the model satisfies the trace property [P] that check.py evaluates (through
+    [Pb]) on traces of the implementation … *)
+Theorem C11_model_traces_satisfy_P :
+  forall k H evs n s, P k H (view_of s) (otrace_of evs (run H n s evs)).
+Proof. exact model_trace_P. Qed.
+Print Assumptions C11_model_traces_satisfy_P.
+
+(** … and the boolean checker is sound for [P]. *)
 Theorem C11_checker_sound : forall n H pre t, Pb n H pre t = true -> P n H pre t.
 Proof. exact Pb_sound. Qed.
 Print Assumptions C11_checker_sound.
